@@ -232,8 +232,8 @@ type scriptedInst struct {
 	gate  chan struct{} // when set, the next step waits for it (the requesting child goes away meanwhile)
 }
 
-func (s *scriptedInst) ID() int            { return s.id }
-func (s *scriptedInst) ParentID() int      { return 0 }
+func (s *scriptedInst) ID() int       { return s.id }
+func (s *scriptedInst) ParentID() int { return 0 }
 func (s *scriptedInst) log(c string) {
 	s.mu.Lock()
 	g := s.gate
